@@ -25,11 +25,29 @@
 
 using namespace vf;
 
+// ---------------------------------------------------------------- ledger of the global heap (the long strings of column s live there):
+// compared around operations that must give back everything they built (a failed table copy destroys the items of the row it imported)
+static long g_heapLive = 0;
+void* operator new(size_t n) { void* p = malloc(n ? n : 1); if (!p) throw std::bad_alloc(); ++g_heapLive; return p; }
+void operator delete(void* p) noexcept { if (p) { --g_heapLive; free(p); } }
+void operator delete(void* p, size_t) noexcept { if (p) { --g_heapLive; free(p); } }
+
 // ---------------------------------------------------------------- arena memory manager (deterministic addresses, ledger, faults)
+// (the arena's own bookkeeping stays out of the heap ledger)
+template<typename T> struct MallocAlloc {
+	typedef T value_type;
+	MallocAlloc() = default;
+	template<typename U> MallocAlloc(const MallocAlloc<U>&) {}
+	T* allocate(size_t n) { void* p = malloc(n * sizeof(T)); if (!p) throw std::bad_alloc(); return (T*)p; }
+	void deallocate(T* p, size_t) { free(p); }
+	template<typename U> bool operator==(const MallocAlloc<U>&) const { return true; }
+	template<typename U> bool operator!=(const MallocAlloc<U>&) const { return false; }
+};
 struct Arena {
 	char* base = nullptr; size_t cap = 0, top = 0;
-	std::map<size_t, std::vector<char*>> freeLists;
-	std::unordered_map<void*, size_t> live;
+	typedef std::vector<char*, MallocAlloc<char*>> FreeList;
+	std::map<size_t, FreeList, std::less<size_t>, MallocAlloc<std::pair<const size_t, FreeList>>> freeLists;
+	std::unordered_map<void*, size_t, std::hash<void*>, std::equal_to<void*>, MallocAlloc<std::pair<void* const, size_t>>> live;
 	long failAfter = -1; bool fired = false;
 	size_t allocs = 0, badDealloc = 0, firedTotal = 0;
 	Arena() {
@@ -264,8 +282,10 @@ struct Runner {
 		tab->pvDeallocateFreeRaws();
 		size_t blocks = tab->mRawMemPool.GetAllocateCount();	// (the pool may keep an empty buffer: the arena ledger is compared at the end of the history)
 		bool thrown = false;
+		long heap = g_heapLive;
 		try { Row row = tab->NewRow(VF_ASSIGNS(x, true)); }
 		catch (const UserFault&) { thrown = true; }
+		if (g_heapLive != heap) fail(fmt("NewRow(assignments: id %d) interrupted by a throwing item conversion left %ld heap blocks of row items allocated", x.id, g_heapLive - heap));
 		if (!thrown) fail(fmt("NewRow(assignments: id %d) swallowed the exception thrown by the conversion of an item argument", x.id));
 		if (tab->mRawMemPool.GetAllocateCount() != blocks)
 			fail(fmt("NewRow(assignments: id %d) interrupted by a throwing item conversion keeps its row block (%zu -> %zu blocks of the raw pool)",
@@ -727,10 +747,13 @@ struct Runner {
 		size_t tries = (!heavy && sh.size() <= 80) ? total : std::min<size_t>(total, 8);
 		for (size_t i = 0; i < tries; ++i) {
 			long k = (tries == total) ? (long)i : (long)rng.below(total);
+			long heap = g_heapLive;
 			ar.arm(k); bool bad = false;
 			try { make(); } catch (const std::bad_alloc&) { bad = true; }
 			ar.disarm();
+			long heapAfter = g_heapLive;
 			c.stats.evaluations++;
+			if (heapAfter != heap) { fail(fmt("a table copy (%s) with the failure of its allocation #%ld armed left %ld heap blocks of row items (strings) allocated", via ? "from a selection" : "copy constructor", k, heapAfter - heap)); return; }
 			if (!bad) { c.stats.count(ar.fired ? "fault.swallowed.copy" : "fault.not_reached.copy"); continue; }
 			c.stats.count("fault.thrown.copy");
 			if (ar.live.size() != live) { fail(fmt("a table copy (%s) interrupted by the failure of its allocation #%ld left %zu blocks allocated (%zu before)", via ? "from a selection" : "copy constructor", k, ar.live.size(), live)); ar.live.clear(); return; }
@@ -1221,10 +1244,14 @@ struct Runner {
 			tab->pvDeallocateFreeRaws();
 			size_t live = ar.live.size();
 			for (int att = 0; att < 3; ++att) {
+				got.clear(); got.shrink_to_fit();
+				long heap = g_heapLive;
 				ar.arm(att == 0 ? 0 : (long)rng.below(4 + 2 * sh.size())); bool bad = false;
 				try { call(); } catch (const std::bad_alloc&) { bad = true; }
 				ar.disarm();
+				long heapAfter = g_heapLive;
 				c.stats.evaluations++;
+				if (bad && heapAfter != heap) { fail(fmt("%s interrupted by an allocation failure left %ld heap blocks of row items allocated", distinct ? "ProjectDistinct" : "Project", heapAfter - heap)); break; }
 				if (!bad) { c.stats.count(ar.fired ? "fault.swallowed.project" : "fault.not_reached.project"); continue; }
 				c.stats.count("fault.thrown.project");
 				if (ar.live.size() != live) { fail(fmt("%s interrupted by an allocation failure left %zu blocks allocated (%zu before)", distinct ? "ProjectDistinct" : "Project", ar.live.size(), live)); ar.live.clear(); break; }
